@@ -129,6 +129,7 @@ class Driver(object):
         self.U = float(script['U'])
         self.snaps = []
         self.pending = []     # deferred RPC answers: (req, kind, Deferred-callable)
+        self.multicall_errors = getattr(self, 'multicall_errors', [])
         self.opi = 0
         self.ended = None
         self.hooks = []       # extra per-poll hooks (output harnesses)
@@ -380,6 +381,8 @@ class Driver(object):
 
     def _answer(self, req, res):
         # res: ('value', v) | ('fault', code)
+        if req is None:
+            return                      # the envelope of a system.multicall: its parts were answered one by one
         if res[0] == 'fault':
             self.kernel.trace.append(('ans', req, res[1]))
         elif isinstance(res[1], list):
@@ -515,6 +518,8 @@ class Driver(object):
                 k.trace.append(('ans', req, 0))
             except Exception:
                 k.trace.append(('ans', req, 500))
+        elif kind == 'multicall':
+            self._multicall(a[1])
         elif kind == 'rpc':
             req, what = a[1], a[2]
             k.trace.append(('req', req, what, a[3] if len(a) > 3 else -1, a[4] if len(a) > 4 else -1))   # marker
@@ -562,6 +567,115 @@ class Driver(object):
                 raise ValueError(what)
         else:
             raise ValueError(kind)
+
+    def _multicall(self, subs):
+        """system.multicall([...]) through the real XML-RPC handler and the real SystemNamespaceRPCInterface (monitor-
+        judged scripts only).  subs: ['rpc', req, 'start'|'stop'|'signal', process, wait-or-signal] entries.  A multicall
+        is a sequence of requests: request k+1 arrives when request k has been answered.  The supervisor namespace is
+        replaced by a recording stand-in that forwards every call to the real interface and notes when each part is
+        answered (its method returns / raises, or its deferred callback finishes); the 'req' marker of part k+1 is put
+        into the trace at the moment part k is answered - never at the moment the real code chose to invoke it."""
+        from supervisor.http import NOT_DONE_YET
+        from supervisor.xmlrpc import RPCError
+        import rpcstack
+        import types
+        k = self.kernel
+        drv = self
+        st = {'open': 0, 'known': {}, 'invoked': 0}
+
+        def name(i):
+            if i < len(self.pcfgs):
+                return 'g%d:p%d' % (self.script['procs'][i]['group'], i)
+            return 'g0:nosuch'
+
+        def marker(j):
+            a = subs[j]
+            k.trace.append(('req', a[1], a[2], a[3], a[4]))
+
+        def settle(j, code):
+            st['known'][j] = code
+            while st['open'] in st['known']:
+                k.trace.append(('ans', subs[st['open']][1], st['known'][st['open']]))
+                st['open'] += 1
+                if st['open'] < len(subs):
+                    marker(st['open'])
+
+        def forward(method):
+            real = getattr(self.rpc, method)
+
+            def call(*args):
+                j = st['invoked']
+                st['invoked'] += 1
+                want = calls[j] if j < len(calls) else None
+                if want is None or want['methodName'] != 'supervisor.' + method or list(want['params']) != list(args):
+                    drv.multicall_errors.append('part %d was invoked as %s%r' % (j, method, args))
+                try:
+                    v = real(*args)
+                except RPCError as e:
+                    settle(j, e.code)
+                    raise
+                if isinstance(v, types.FunctionType):
+                    def cb():
+                        try:
+                            out = v()
+                        except RPCError as e:
+                            settle(j, e.code)
+                            raise
+                        if out is not NOT_DONE_YET:
+                            settle(j, 0)
+                        return out
+                    cb.delay = getattr(v, 'delay', 0.05)
+                    return cb
+                settle(j, 0)
+                return v
+            return call
+
+        fwd = dict((m, forward(m)) for m in ('startProcess', 'stopProcess', 'signalProcess'))
+
+        class StandIn(object):          # (traverse() only calls bound methods)
+            def startProcess(self, name, wait=True):
+                return fwd['startProcess'](name, wait)
+
+            def stopProcess(self, name, wait=True):
+                return fwd['stopProcess'](name, wait)
+
+            def signalProcess(self, name, signal):
+                return fwd['signalProcess'](name, signal)
+        calls = []
+        for a in subs:
+            if a[2] == 'signal':
+                calls.append({'methodName': 'supervisor.signalProcess', 'params': [name(a[3]), str(a[4])]})
+            else:
+                calls.append({'methodName': 'supervisor.%sProcess' % a[2], 'params': [name(a[3]), bool(a[4])]})
+        from supervisor.xmlrpc import SystemNamespaceRPCInterface
+        subs_ = [('supervisor', StandIn())]
+        subs_.append(('system', SystemNamespaceRPCInterface(subs_)))      # as supervisor.http.make_http_servers does
+        stack = rpcstack.RpcStack(self.sup, subs_)
+        marker(0)
+        res = stack.call('system.multicall', [calls])
+
+        def finish(r):
+            # the envelope's answer: one entry per part, in order, each equal to what the part answered
+            if r[0] != 'value' or not isinstance(r[1], list) or len(r[1]) != len(subs):
+                drv.multicall_errors.append('system.multicall of %d calls answered %r' % (len(subs), r))
+                return
+            for j, v in enumerate(r[1]):
+                got = v.get('faultCode') if isinstance(v, dict) else 0
+                if st['known'].get(j) != got:
+                    drv.multicall_errors.append('system.multicall entry %d is %r; the call itself answered %r'
+                                                % (j, v, st['known'].get(j)))
+        if res[0] == 'deferred':
+            d = res[1]
+
+            def outer():
+                r = d.poll()
+                if r is None:
+                    return NOT_DONE_YET
+                finish(r)
+                return True
+            self._poll_deferred(None, outer, first=True)
+        else:
+            finish(res)
 
     def _config_file(self):
         import tempfile
@@ -690,7 +804,8 @@ class Driver(object):
                         misattributed.append((fn, int(w)))
         return {'misattributed': misattributed, 'snaps': self.snaps, 'trace': self.kernel.trace, 'ended': self.ended,
                 'crash': getattr(self, 'crash_tb', None), 'hangs': list(self.kernel.hangs),
-                'stale_pools': getattr(self, 'stale_pools', 0)}
+                'stale_pools': getattr(self, 'stale_pools', 0),
+                'multicall_errors': list(getattr(self, 'multicall_errors', []))}
 
 
 def run_script(script):
